@@ -907,6 +907,11 @@ func (c *VCtx) translateCall(sc *Scope, x *ECall) Val {
 			}
 		}
 		unsup("cell(%s): no such variable cell", id.Name)
+	case "cur":
+		// cur(e) inside old(...): e is evaluated in the current state (e.g. old(pub(cur(x.top))))
+		n := *sc
+		n.inOld = false
+		return c.translate(&n, x.Args[0])
 	case "fresh":
 		// fresh(e): the current value of e did not exist in the old state (two-state clauses)
 		if sc.old == nil {
